@@ -107,7 +107,49 @@ func main() {
 	mutOnly := flag.String("mutant", "", "run only on this mutant (debug)")
 	dumpFuncs := flag.Bool("dump-funcs", false, "print the function keys of the tree (to regenerate known_funcs.txt)")
 	showNorm := flag.Bool("show-normalized", false, "print the normalised source of files changed by the de-extraction step (debug)")
+	scanAll := flag.Bool("scan-all", false, "load the tree once and print the violations of every property's quick rules (corpus scans; writes no evidence)")
 	flag.Parse()
+	if *scanAll {
+		known, err := loadKnown(filepath.Join(*verif, "known_findings.json"))
+		if err != nil {
+			fmt.Fprintf(os.Stderr, "known_findings.json: %v\n", err)
+			os.Exit(2)
+		}
+		ids := []string{}
+		for k := range props {
+			ids = append(ids, k)
+		}
+		sort.Strings(ids)
+		norm, notes := Normalize(*repo, nil)
+		p, err := Load(*repo, norm, false, "")
+		if err != nil && len(notes) > 0 {
+			SplicedHelpers = map[string]bool{}
+			p, err = Load(*repo, nil, false, "")
+		}
+		if err != nil {
+			fmt.Printf("ALL cannot analyse: %s\n", firstLine(err.Error()))
+			os.Exit(2)
+		}
+		for _, id := range ids {
+			func() {
+				defer func() {
+					if x := recover(); x != nil {
+						fmt.Printf("%s VIOLATION property=%s kind=broken-check :: analyser panic: %v\n", id, id, x)
+					}
+				}()
+				rep := NewReport(id)
+				props[id].Run(p, rep, "quick")
+				res := rep.classify(known)
+				for _, o := range res.Violations {
+					fmt.Printf("%s VIOLATION property=%s kind=violation rule=%s at=%s construct=%q :: %s\n", id, id, o.Rule, o.Pos, o.Construct, firstLine(o.Detail))
+				}
+				for _, o := range res.Undecided {
+					fmt.Printf("%s VIOLATION property=%s kind=undecided rule=%s at=%s construct=%q :: %s\n", id, id, o.Rule, o.Pos, o.Construct, firstLine(o.Detail))
+				}
+			}()
+		}
+		os.Exit(0)
+	}
 	if *dumpFuncs {
 		if err := DumpFuncs(*repo); err != nil {
 			fmt.Fprintln(os.Stderr, err)
